@@ -22,6 +22,7 @@ import (
 	"os/exec"
 	"path/filepath"
 	"runtime/debug"
+	"runtime/pprof"
 	"sort"
 	"strings"
 	"sync"
@@ -84,6 +85,7 @@ type alteration struct {
 	Alts    [][2]string `json:"alts"` // (field, class) as classified by the harness
 	Desc    string      `json:"desc"`
 	Patches []patch     `json:"patches"`
+	Alloc   int64       `json:"allocEstimate"` // largest length the code will allocate for it
 }
 
 // classify the change old -> new of one field instance
@@ -97,6 +99,10 @@ func classify(lay *layout, s *span, oldb, newb []byte) string {
 	}
 	kind := fieldKind[s.Field]
 	ti := &lay.txs[s.Tx-1]
+	if s.Field == "valCLen" || s.Field == "valComp" {
+		e := &ti.Entries[s.Entry]
+		return lay.decClass(e, e.VOff, int64(e.VLen), patchMap(s.Region, s.Off, oldb, newb))
+	}
 	switch {
 	case s.Field == "vLen":
 		o, n := beU(oldb), beU(newb)
@@ -126,6 +132,16 @@ func classify(lay *layout, s *span, oldb, newb []byte) string {
 			}
 			return "vlogidOOR"
 		case d&((1<<55)-1) != 0:
+			if lay.cfg.Compression != 0 {
+				e := &ti.Entries[s.Entry]
+				if e.VLen == 0 {
+					return "lowIn"
+				}
+				if lay.decClass(e, n, int64(e.VLen), nil) == "decEof" {
+					return "lowOut"
+				}
+				return "lowIn"
+			}
 			if lay.rangeInside(n, int64(ti.Entries[s.Entry].VLen)) {
 				return "lowIn"
 			}
@@ -236,30 +252,143 @@ func be(n int, v uint64) []byte {
 	return b
 }
 
-// The code under test allocates the length it reads (make([]byte, vLen) in ReadValue/ExportTx, the Reader
-// buffer of cTxSize, make([]byte, clen) in the compressed ReadAt) before any check, so a flipped bit 27..31 of
-// these 32-bit lengths makes every read of that tx allocate 128 MiB .. 4 GiB.  Those bits are executed only on
-// one instance per field and store in the thorough tier (one at a time); bit 26 (64 MiB) and below always.
-func hugeLenBit(s *span, bit int) bool {
-	if s.Field != "vLen" && s.Field != "cTxSize" && s.Field != "valCLen" {
-		return false
+// The code under test allocates the length it reads before any check: make([]byte, vLen) in ReadValue/ExportTx,
+// the Reader buffer of cTxSize, and make([]byte, clen) in the compressed ReadAt where clen is whatever 4 bytes
+// stand at vOff.  An alteration can therefore make every read of the tx allocate (and zero) up to 4 GiB.
+// allocEstimate computes the largest such length for an alteration from the parser's view; alterations above the
+// tier's threshold are executed only on one representative per field and store, one at a time.
+func (l *layout) allocEstimate(ps []patch) int64 {
+	pm := map[string]map[int64]byte{}
+	for _, p := range ps {
+		if pm[p.Region] == nil {
+			pm[p.Region] = map[int64]byte{}
+		}
+		pm[p.Region][p.Off] ^= p.Mask
 	}
-	// bit index: byte bit/8 (big endian), bit bit%8 inside the byte
-	weight := (s.Len-1-bit/8)*8 + bit%8
-	return weight >= 27
+	readP := func(s *span) uint64 {
+		b := l.spanBytes(s)
+		var v uint64
+		for i := range b {
+			v = v<<8 | uint64(b[i]^pm[s.Region][s.Off+int64(i)])
+		}
+		return v
+	}
+	var est int64
+	up := func(v int64) {
+		if v > est {
+			est = v
+		}
+	}
+	touched := map[[2]int]bool{}
+	for _, p := range ps {
+		s := l.spanAt(p.Region, p.Off)
+		if s == nil {
+			continue
+		}
+		switch s.Field {
+		case "cTxSize":
+			up(int64(readP(s)))
+		case "vLen", "vOff", "valCLen", "valComp":
+			touched[[2]int{s.Tx, s.Entry}] = true
+		}
+	}
+	for te := range touched {
+		e := &l.txs[te[0]-1].Entries[te[1]]
+		vlen := readP(&l.spans[e.vLenSpan])
+		voff := readP(&l.spans[e.vOffSpan])
+		up(int64(vlen))
+		if l.cfg.Compression != 0 && vlen > 0 {
+			_, _, a := l.simCompressedRead(voff, int64(vlen), pm)
+			up(a)
+		}
+	}
+	return est
 }
 
-func (g *gen) hugeOK(s *span, bit int) bool {
+// simCompressedRead follows multiapp.ReadAt / singleapp.ReadAt on a compressed value log: every round reads a
+// 4-byte length at the current position and allocates it; after a short record the next round continues at
+// offset + bytes decompressed so far, i.e. in the middle of compressed data.  Returns the largest length read.
+func (l *layout) simCompressedRead(vOff uint64, want int64, pm map[string]map[int64]byte) (out []byte, eof bool, est int64) {
+	id := int(vOff >> 56)
+	off := int64(vOff & ((1 << 55) - 1))
+	if id < 1 || id > l.cfg.IOConc {
+		return nil, true, 0
+	}
+	lf := l.logs[rVal(id-1)]
+	for r := int64(0); r < want; {
+		p := off + r
+		c, in := p/lf.fileSize, p%lf.fileSize
+		if int(c) >= len(lf.chunks) {
+			return out, true, est
+		}
+		data := lf.chunks[c].data
+		at := func(i int64) byte { return data[i] ^ pm[lf.region][c*lf.fileSize+i] }
+		if in+4 > int64(len(data)) {
+			return out, true, est
+		}
+		clen := int64(at(in))<<24 | int64(at(in+1))<<16 | int64(at(in+2))<<8 | int64(at(in+3))
+		if clen > est {
+			est = clen
+		}
+		if in+4+clen > int64(len(data)) {
+			return out, true, est
+		}
+		cb := make([]byte, clen)
+		for i := range cb {
+			cb[i] = at(in + 4 + int64(i))
+		}
+		dec, _ := decompressPartial(l.cfg.Compression, cb)
+		n := int64(len(dec))
+		if n > want-r {
+			n = want - r
+		}
+		if n == 0 {
+			return out, true, est
+		}
+		out = append(out, dec[:n]...)
+		r += n
+	}
+	return out, false, est
+}
+
+// decClass names what dereferencing (vOff, vLen) of an entry gives on a compressed value log once the patches are
+// applied, by the harness' own decoding: decSame (same bytes), decEof (short: EOF), decDiff (other bytes)
+func (l *layout) decClass(e *entryInfo, vOff uint64, vLen int64, pm map[string]map[int64]byte) string {
+	out, eof, _ := l.simCompressedRead(vOff, vLen, pm)
+	switch {
+	case eof:
+		return "decEof"
+	case bytes.Equal(out, e.Value):
+		return "decSame"
+	}
+	return "decDiff"
+}
+
+func patchMap(region string, off int64, oldb, newb []byte) map[string]map[int64]byte {
+	pm := map[string]map[int64]byte{region: {}}
+	for i := range oldb {
+		if m := oldb[i] ^ newb[i]; m != 0 {
+			pm[region][off+int64(i)] = m
+		}
+	}
+	return pm
+}
+
+// admit decides whether an alteration is executed given its allocation estimate
+func (g *gen) admit(field string, est int64) bool {
+	thr, lo, hi := int64(128<<20), int64(1<<30), int64(4<<30)
 	if g.quick {
-		return false
+		thr, lo, hi = 64<<10, 32<<20, 128<<20
 	}
-	weight := (s.Len-1-bit/8)*8 + bit%8
-	k := s.Field
-	if weight != 31 || g.hugeDone[k] {
-		return false
+	if est < thr {
+		return true
 	}
-	g.hugeDone[k] = true
-	return true
+	if est >= lo && est <= hi && !g.hugeDone[field] {
+		g.hugeDone[field] = true
+		return true
+	}
+	g.skippedHuge++
+	return false
 }
 
 type gen struct {
@@ -267,6 +396,7 @@ type gen struct {
 	rng   *rand.Rand
 	quick bool
 	skippedHuge int
+	sampledOut  int
 	hugeDone    map[string]bool
 	out   []alteration
 	// classes realised by single-bit flips, per span index
@@ -277,7 +407,11 @@ func (g *gen) add(kind string, tx int, alts [][2]string, desc string, ps []patch
 	if len(ps) == 0 {
 		return
 	}
-	g.out = append(g.out, alteration{Kind: kind, Tx: tx, Alts: alts, Desc: desc, Patches: ps})
+	est := g.lay.allocEstimate(ps)
+	if kind != "bit" && !g.admit(kind, est) {
+		return
+	}
+	g.out = append(g.out, alteration{Kind: kind, Tx: tx, Alts: alts, Desc: desc, Patches: ps, Alloc: est})
 }
 
 func (g *gen) flipBit(si, bit int) ([]byte, []patch) {
@@ -287,7 +421,47 @@ func (g *gen) flipBit(si, bit int) ([]byte, []patch) {
 	return nb, []patch{g.lay.mkPatch(s, bit/8, 1<<uint(bit%8))}
 }
 
-// every single bit (digest-like spans are subsampled in the quick tier: all their bits are one class)
+// weight of a bit inside a big-endian field
+func weightOf(s *span, bit int) int { return (s.Len-1-bit/8)*8 + bit%8 }
+func bitOfWeight(s *span, w int) int { return (s.Len-1-w/8)*8 + w%8 }
+
+// quick tier: which bits of a field instance are executed (nil = all).  Every instance of every field is
+// flipped; inside a field whose bits all fall into one alteration class (digests, 8-byte integers, long byte
+// strings, the offset bits of vOff / cTxOff) a seeded sample is taken.  Lengths, version, attribute codes,
+// short fields and the non-offset bits of vOff are always exhaustive.
+func (g *gen) sampleBits(s *span) map[int]bool {
+	if !g.quick {
+		return nil
+	}
+	nbits := s.Len * 8
+	pick := map[int]bool{}
+	some := func(lo, hi, n int) { // n random weights in [lo, hi] plus both ends
+		pick[bitOfWeight(s, lo)], pick[bitOfWeight(s, hi)] = true, true
+		for k := 0; k < n-2; k++ {
+			pick[bitOfWeight(s, lo+g.rng.Intn(hi-lo+1))] = true
+		}
+	}
+	switch {
+	case s.Field == "vOff":
+		for w := 55; w < 64; w++ {
+			pick[bitOfWeight(s, w)] = true
+		}
+		some(0, 54, 9)
+	case s.Field == "cTxOff":
+		some(0, 63, 9)
+	case fieldKind[s.Field] == kindDigest:
+		some(0, nbits-1, 8)
+	case fieldKind[s.Field] == kindInt && s.Len == 8:
+		some(0, 63, 8)
+	case fieldKind[s.Field] == kindBytes && s.Len > 3:
+		some(0, nbits-1, 8)
+	default:
+		return nil
+	}
+	return pick
+}
+
+// every single bit (quick tier: see sampleBits)
 func (g *gen) singles() {
 	g.single = map[int]map[string][]int{}
 	for si := range g.lay.spans {
@@ -297,25 +471,29 @@ func (g *gen) singles() {
 		}
 		old := g.lay.spanBytes(s)
 		nbits := s.Len * 8
-		pick := map[int]bool{}
-		sub := g.quick && (fieldKind[s.Field] == kindDigest || (fieldKind[s.Field] == kindBytes && s.Len > 24))
-		if sub {
-			pick[0], pick[nbits-1] = true, true
-			for len(pick) < 10 {
-				pick[g.rng.Intn(nbits)] = true
-			}
-		}
+		pick := g.sampleBits(s)
 		g.single[si] = map[string][]int{}
 		for bit := 0; bit < nbits; bit++ {
-			if hugeLenBit(s, bit) && !g.hugeOK(s, bit) {
-				g.skippedHuge++
-				continue
-			}
 			nb := append([]byte{}, old...)
 			nb[bit/8] ^= 1 << uint(bit%8)
 			cls := classify(g.lay, s, old, nb)
-			g.single[si][cls] = append(g.single[si][cls], bit)
-			if sub && !pick[bit] {
+			est := int64(0)
+			if s.Field == "vLen" || s.Field == "vOff" || s.Field == "valCLen" || s.Field == "cTxSize" {
+				_, ps := g.flipBit(si, bit)
+				est = g.lay.allocEstimate(ps)
+				if est >= 64<<10 && pick != nil && !pick[bit] {
+					g.sampledOut++
+					continue
+				}
+				if !g.admit(s.Field, est) {
+					continue
+				}
+			}
+			if est < 64<<10 {
+				g.single[si][cls] = append(g.single[si][cls], bit) // small enough to be reused in combinations
+			}
+			if pick != nil && !pick[bit] {
+				g.sampledOut++
 				continue
 			}
 			_, ps := g.flipBit(si, bit)
@@ -568,13 +746,54 @@ func makeImage(src, dst string, ps []patch, skipIndex bool) {
 	}
 }
 
-func dirDigest(dir string) string {
+// per-worker images are kept between alterations: only the altered files are replaced by a patched private copy
+// and hard-linked back afterwards (unlink/mkdir of whole trees is slow here)
+func applyPatches(src, img string, ps []patch) {
+	byFile := map[string][]patch{}
+	for _, p := range ps {
+		byFile[p.File] = append(byFile[p.File], p)
+	}
+	for rel, pl := range byFile {
+		b, err := os.ReadFile(filepath.Join(src, rel))
+		vh.Must(err, "read "+rel)
+		for _, x := range pl {
+			if x.FOff >= int64(len(b)) {
+				vh.Fatalf("patch beyond %s", rel)
+			}
+			b[x.FOff] ^= x.Mask
+		}
+		vh.Must(os.Remove(filepath.Join(img, rel)), "unlink "+rel)
+		vh.Must(os.WriteFile(filepath.Join(img, rel), b, 0644), "write "+rel)
+	}
+}
+
+func restorePatches(src, img string, ps []patch) {
+	done := map[string]bool{}
+	for _, p := range ps {
+		if done[p.File] {
+			continue
+		}
+		done[p.File] = true
+		vh.Must(os.Remove(filepath.Join(img, p.File)), "unlink patched "+p.File)
+		vh.Must(os.Link(filepath.Join(src, p.File), filepath.Join(img, p.File)), "relink "+p.File)
+	}
+}
+
+func dirDigest(dir string) string { return dirDigestSkip(dir, false) }
+
+func dirDigestSkip(dir string, skipIndex bool) string {
 	h := sha256.New()
 	vh.Must(filepath.WalkDir(dir, func(p string, d fs.DirEntry, err error) error {
-		if err != nil || d.IsDir() {
+		if err != nil {
 			return err
 		}
 		rel, _ := filepath.Rel(dir, p)
+		if d.IsDir() {
+			if skipIndex && rel == "index" {
+				return filepath.SkipDir
+			}
+			return nil
+		}
 		b, err := os.ReadFile(p)
 		if err != nil {
 			return err
@@ -607,6 +826,7 @@ type storeCtx struct {
 	pristine  map[string]item
 	truncExp  map[int]string // tx -> hex of the export without values
 	selftest  bool
+	quick     bool
 }
 
 func (sc *storeCtx) judge(path string, alt *alteration, items []item) pathObs {
@@ -651,7 +871,7 @@ func (sc *storeCtx) judge(path string, alt *alteration, items []item) pathObs {
 			if it.Loc != p.Loc {
 				obs.LocDiff = true
 			}
-		case path == pExport && it.Content == sc.truncExp[it.Tx]:
+		case path == pExport && it.Content == sc.truncExp[it.Tx] && it.Content != "":
 			worse("degraded", "exported without values (flagged truncated); header, keys, metadata and value digests identical", it)
 		default:
 			worse("diff", fmt.Sprintf("%s: pristine %.160q got %.160q", it.key(), p.Content, it.Content), it)
@@ -666,17 +886,23 @@ type altResult struct {
 	obs map[string]pathObs
 }
 
+var indexSensitive = map[string]bool{"vLen": true, "vOff": true, "val": true, "valCLen": true, "valComp": true, "valEmb": true, "embLen": true,
+	"cTxOff": true, "cTxSize": true, "cAlh": true}
+
 var hugeMu sync.Mutex // alterations that make the code allocate gigabytes run one at a time
 
-func (sc *storeCtx) run(alt *alteration, scratch string, id int, self string) altResult {
+type workerImg struct{ a, b string } // a: full copy (hard links); b: the same without the index directory
+
+func (sc *storeCtx) newWorkerImg(scratch string, wk int) *workerImg {
+	w := &workerImg{a: filepath.Join(scratch, fmt.Sprintf("w%d-a", wk)), b: filepath.Join(scratch, fmt.Sprintf("w%d-b", wk))}
+	makeImage(sc.dir, w.a, nil, false)
+	makeImage(sc.dir, w.b, nil, true)
+	return w
+}
+
+func (sc *storeCtx) run(alt *alteration, w *workerImg, id int, self string) altResult {
 	res := altResult{alt: alt, obs: map[string]pathObs{}}
-	huge := false
-	for _, p := range alt.Patches {
-		s := sc.lay.spanAt(p.Region, p.Off)
-		if s != nil && (s.Field == "vLen" || s.Field == "cTxSize" || s.Field == "valCLen") && p.Off == s.Off && p.Mask >= 0x04 {
-			huge = true // the length becomes >= 64 MiB
-		}
-	}
+	huge := alt.Alloc >= 16<<20
 	if huge {
 		hugeMu.Lock()
 		defer func() {
@@ -684,8 +910,8 @@ func (sc *storeCtx) run(alt *alteration, scratch string, id int, self string) al
 			hugeMu.Unlock()
 		}()
 	}
-	img := filepath.Join(scratch, fmt.Sprintf("img-%s-%d", sc.cfg.Name, id))
-	makeImage(sc.dir, img, alt.Patches, false)
+	img := w.a
+	applyPatches(sc.dir, img, alt.Patches)
 	oit, o := openStore(img, sc.cfg)
 	items := []item{oit}
 	crashed := false
@@ -703,7 +929,7 @@ func (sc *storeCtx) run(alt *alteration, scratch string, id int, self string) al
 			}
 		}
 	}
-	os.RemoveAll(img)
+	restorePatches(sc.dir, img, alt.Patches)
 	res.obs[pOpen] = sc.judge(pOpen, alt, items)
 	for _, p := range allPaths[1:8] {
 		if o == nil {
@@ -714,15 +940,22 @@ func (sc *storeCtx) run(alt *alteration, scratch string, id int, self string) al
 	}
 	// index rebuild after deleting the index directory; in a child process when the same tx already made a
 	// parser panic (the indexer goroutine would take the whole process down)
-	img2 := img + "-idx"
-	makeImage(sc.dir, img2, alt.Patches, true)
+	if sc.quick && alt.Kind == "bit" && id%4 != 0 && !indexSensitive[alt.Alts[0][0]] {
+		// quick tier: fields that the record's Alh covers make the indexer stop on the same readTx error as the
+		// ReadTx path; the index rebuild runs for every fourth of those alterations and for all others
+		res.obs[pIndex] = pathObs{Kind: "skipped"}
+		return res
+	}
+	img2 := w.b
+	applyPatches(sc.dir, img2, alt.Patches)
 	var iitems []item
 	if crashed {
 		iitems = childIndex(img2, sc)
 	} else {
 		iitems = runIndexRebuild(img2, sc.cfg, sc.lay)
 	}
-	os.RemoveAll(img2)
+	os.RemoveAll(filepath.Join(img2, "index"))
+	restorePatches(sc.dir, img2, alt.Patches)
 	res.obs[pIndex] = sc.judge(pIndex, alt, iitems)
 	if self != "" {
 		// binding self-test: pretend one path served altered content
@@ -784,6 +1017,7 @@ func main() {
 	workers := flag.Int("workers", 8, "parallel workers (max 8)")
 	selftest := flag.String("selftest", "", "binding self-test: corrupt the observation of this path")
 	only := flag.String("only", "", "run only this configuration class")
+	limit := flag.Int("limit", 0, "(development) execute only the first N alterations per class")
 	child := flag.String("child-index", "", "(internal) run the index rebuild path on this image and print the items")
 	class := flag.String("class", "", "(internal)")
 	pristineDir := flag.String("pristine", "", "(internal)")
@@ -813,6 +1047,12 @@ func main() {
 		}
 		vh.Fatalf("unknown class %q", *class)
 	}
+	if pf := os.Getenv("C09_PROFILE"); pf != "" {
+		f, err := os.Create(pf)
+		vh.Must(err, "profile")
+		pprof.StartCPUProfile(f)
+		defer pprof.StopCPUProfile()
+	}
 	if *workers > 8 {
 		*workers = 8
 	}
@@ -827,7 +1067,7 @@ func main() {
 		n    int
 		kind map[string]int
 		errs map[string]int
-		exp  string
+		exp  map[string]bool
 	}
 	cells := map[string]*cellAgg{} // cfg|altkey|path
 	var cellMu sync.Mutex
@@ -851,7 +1091,7 @@ func main() {
 			vh.Fatalf("%s: the independent parser does not reproduce the store: %v", c.Name, err)
 		}
 		digest := dirDigest(pdir)
-		sc := &storeCtx{cfg: c, dir: pdir, lay: lay, pristine: map[string]item{}, truncExp: map[int]string{}}
+		sc := &storeCtx{cfg: c, dir: pdir, lay: lay, pristine: map[string]item{}, truncExp: map[int]string{}, quick: quick}
 
 		// pristine session on an unaltered image: every read must succeed
 		img := filepath.Join(sdir, "img-pristine")
@@ -912,12 +1152,16 @@ func main() {
 			bitsTotal += s.Len * 8
 		}
 		res.Count("mapped-bits:"+c.Name, bitsTotal)
-		res.Count("length-bits-27..31-not-executed:"+c.Name, g.skippedHuge)
+		res.Count("huge-allocation-alterations-not-executed:"+c.Name, g.skippedHuge)
+		res.Count("bits-sampled-out:"+c.Name, g.sampledOut)
 		fmt.Fprintf(os.Stderr, "[c09] %s: %d mapped bits, %d alterations (%d single-bit)\n", c.Name, bitsTotal, len(g.out), nSingles)
 
 		jobs := make(chan int)
 		var wg sync.WaitGroup
+		var wimgs []*workerImg
 		for wk := 0; wk < *workers; wk++ {
+			wimg := sc.newWorkerImg(sdir, wk)
+			wimgs = append(wimgs, wimg)
 			wg.Add(1)
 			go func() {
 				defer wg.Done()
@@ -927,11 +1171,13 @@ func main() {
 					if *selftest != "" && id == 0 {
 						self = *selftest
 					}
-					r := sc.run(alt, sdir, id, self)
+					r := sc.run(alt, wimg, id, self)
 					n := len(lay.txs)
 					pos, shape := "inner", "nN"
 					if alt.Tx == n {
 						pos = "last"
+					} else if alt.Tx == 1 {
+						pos = "first"
 					}
 					if len(lay.txs[alt.Tx-1].Entries) == 1 {
 						shape = "n1"
@@ -944,6 +1190,10 @@ func main() {
 					}
 					for pi, p := range allPaths {
 						o := r.obs[p]
+						if o.Kind == "skipped" {
+							res.Count("index-rebuild-sampled-out", 1)
+							continue
+						}
 						evals.Add(1)
 						res.Count("path-runs:"+p, 1)
 						res.Count("obs:"+p+":"+o.Kind, 1)
@@ -961,9 +1211,10 @@ func main() {
 						ck := c.Name + "|" + ak + "|" + p
 						ca := cells[ck]
 						if ca == nil {
-							ca = &cellAgg{kind: map[string]int{}, errs: map[string]int{}, exp: exp}
+							ca = &cellAgg{kind: map[string]int{}, errs: map[string]int{}, exp: map[string]bool{}}
 							cells[ck] = ca
 						}
+						ca.exp[short(exp)] = true
 						ca.n++
 						kk := o.Kind
 						if o.LocDiff && kk == "same" {
@@ -985,7 +1236,7 @@ func main() {
 							case "hang":
 								sig = "hang:" + p + ":" + o.Detail
 							default:
-								sig = "altered-content-served:" + p + ":" + ak
+								sig = "altered-content-served:" + rootCause(alt) + ":" + p + ":" + ak
 							}
 							text := fmt.Sprintf("%s, %s [%s], path %s: %s: %s (model: %s %s)", c.Name, alt.Desc, ak, p, o.Kind, o.Detail, exp, by)
 							res.Violate(sig, text, map[string]interface{}{"class": c.Name, "seed": *seed, "alteration": alt, "path": p, "observation": o.Item, "model": exp})
@@ -1008,6 +1259,9 @@ func main() {
 							res.DriftNote(fmt.Sprintf("model says detected for %s %s on %s, real code exports without values", c.Model, ak, p))
 						}
 					}
+					if dbg := os.Getenv("C09_DEBUG"); dbg != "" && strings.Contains(altKey(alt.Alts), dbg) {
+						fmt.Fprintf(os.Stderr, "DBG %s | %s | %v\n", alt.Desc, altKey(alt.Alts), kinds(r.obs))
+					}
 					if id%7 == 0 {
 						res.Sample(map[string]interface{}{"class": c.Name, "alteration": alt.Desc, "alts": ak, "observed": kinds(r.obs)}, 8)
 					}
@@ -1015,6 +1269,9 @@ func main() {
 			}()
 		}
 		for id := range g.out {
+			if *limit > 0 && id >= *limit {
+				break
+			}
 			jobs <- id
 			if id%500 == 499 {
 				fmt.Fprintf(os.Stderr, "[c09] %s: %d/%d alterations, %.0fs\n", c.Name, id+1, len(g.out), time.Since(ts).Seconds())
@@ -1024,6 +1281,12 @@ func main() {
 		wg.Wait()
 		if d := dirDigest(pdir); d != digest {
 			vh.Fatalf("%s: the pristine directory changed while images were read (hard links are not safe)", c.Name)
+		}
+		noIdx := dirDigestSkip(pdir, true)
+		for _, wi := range wimgs {
+			if dirDigest(wi.a) != digest || dirDigestSkip(wi.b, false) != noIdx {
+				vh.Fatalf("%s: a worker image differs from the pristine store after its alterations were undone", c.Name)
+			}
 		}
 		os.RemoveAll(sdir)
 		timing[c.Name] = time.Since(ts).Seconds()
@@ -1053,7 +1316,12 @@ func main() {
 				ks = append(ks, fmt.Sprintf("%s:%d", k, n))
 			}
 			sort.Strings(ks)
-			fmt.Fprintf(&sb, " | %s[%s]=%s", p, short(ca.exp), strings.Join(ks, ","))
+			var es []string
+			for e := range ca.exp {
+				es = append(es, e)
+			}
+			sort.Strings(es)
+			fmt.Fprintf(&sb, " | %s[%s]=%s", p, strings.Join(es, ""), strings.Join(ks, ","))
 		}
 		lines = append(lines, sb.String())
 	}
@@ -1082,6 +1350,21 @@ func main() {
 		}
 	}
 	res.Emit()
+}
+
+// rootCause names the alteration family of a served-altered-content violation (part of the signature)
+func rootCause(alt *alteration) string {
+	for _, a := range alt.Alts {
+		if a[0] == "clogdup" || (a[0] == "cTxOff" && a[1] == "retarget") {
+			return "commit-log-entry-points-to-another-tx-record"
+		}
+	}
+	for _, a := range alt.Alts {
+		if a[0] == "vLen" && a[1] == "zero" {
+			return "vLen-zeroed"
+		}
+	}
+	return "other"
 }
 
 func short(e string) string {
